@@ -262,6 +262,13 @@ class Check:
         t = time.time()
         rc, out = self._tlc(module + ".tla", cfgpath, extra, env, timeout, workers or NCPU, heap)
         res = self._parse_tlc(out, rc)
+        if rc != 124 and res["error"] and not res["violated"]:
+            # a JVM that could not start or died (memory pressure on a shared machine) is not a statement about
+            # the model: run it once more, alone in time, before giving up as an infrastructure failure
+            self.log("TLC %s/%s failed (rc=%s), retrying once: %s" % (module, cfg, rc, out[-300:].replace("\n", " | ")))
+            time.sleep(5)
+            rc, out = self._tlc(module + ".tla", cfgpath, extra, env, timeout, workers or NCPU, heap)
+            res = self._parse_tlc(out, rc)
         res.update(module=module, cfg=cfg, wall_s=round(time.time() - t, 1), simulate=bool(simulate))
         if constants:
             res["constants"] = {k: str(v) for k, v in constants.items()}
@@ -340,6 +347,10 @@ class Check:
             e = dict(env or {})
             e["TRACE"] = p
             rc, out = self._tlc(module + ".tla", os.path.join(SPEC, cfg), [], e, timeout, 1, heap, deque)
+            if rc != 124 and not re.search(r'^"VERDICT ', out, re.M) and ("Error:" in out or "The depth of the complete" not in out):
+                self.log("trace spec %s gave no verdict (rc=%s), retrying once" % (module, rc))
+                time.sleep(5)
+                rc, out = self._tlc(module + ".tla", os.path.join(SPEC, cfg), [], e, timeout, 1, heap, deque)
             return off, p, rc, out
         if len(parts) == 1:
             results = [one(parts[0])]
